@@ -484,3 +484,6 @@ RULES.setdefault("C18", []).append(Rule("C18.R7", "URI compaction walks the whol
                                         "lookup by full URI reaches the same index key as lookup by qualified name"))
 RULES.setdefault("C09", []).append(Rule("C09.R6", "re-homing preserves the URI (shared with C03.R3)", 5, c03_r3, "F-OWN",
                                         "records re-created in the target of flattened/update/add_bundle keep their URIs"))
+
+RULES.setdefault("C01", []).append(Rule("C01.R6", "re-homing preserves the URI (shared with C03.R3): names printed in a container resolve through its own declarations", 5, c03_r3, "F-OWN",
+                                        "a QualifiedName argument used inside a bundle keeps its URI through the JSON text"))
